@@ -47,9 +47,12 @@ class Form:
 
 
 def arm_of(events, idx):
+    # the arm of the function's own dispatch: the subject of the first `case` of the path (a nested match on something
+    # else - `match block.handler:` inside the TryBlock arm - does not start a new arm)
+    subject = next((e.text.split(': ', 1)[0] for e in events if e.kind == 'case' and not e.origin), None)
     for j in range(idx, -1, -1):
         e = events[j]
-        if e.kind == 'case' and not e.origin:
+        if e.kind == 'case' and not e.origin and e.text.split(': ', 1)[0] == subject:
             pat = e.text.split(': ', 1)[1]
             # class pattern name(s)
             return pat.replace('ast.', '').replace('()', '')
